@@ -19,6 +19,7 @@ import CaddyModel.C11.Witness
 import CaddyModel.C11.CaddyfileProps
 import CaddyModel.C11.NamesProps
 import CaddyModel.Gen.Glue
+import CaddyModel.C11.History
 import CaddyModel.Gen.Consts
 
 namespace CaddyModel.C11
@@ -612,6 +613,56 @@ theorem deterministic (c : Config) (P : Params) (κ ρ ρ' : Orders) (h : Comple
   · rw [certsOf_over c P κ ρ h, certsOf_over c P κ ρ' h]
   · rw [policiesOf_over c P κ ρ h, policiesOf_over c P κ ρ' h]
   · rw [serversOf_over c P κ ρ h, serversOf_over c P κ ρ' h]
+
+/-! ### histories of loads in one process -/
+
+/-- a load on its own, in a fresh process -/
+def freshOutcome (l : Load) : Outcome := loadOutcome ownLookup ⟨[]⟩ l
+
+/-- **history independence.** With the lookup of the code that exists (`HasCertificateForSubject`
+    reads the receiver's own loaded / managed sets), provisioning a config after ANY history of
+    earlier loads that are still alive gives exactly what provisioning it in a fresh process
+    gives — so loading the same config twice gives the same result, whatever came in between
+    (determinism across reloads), and a name qualifies by its own config alone (coverage). -/
+theorem history_independent (st : Proc) (l : Load) : loadOutcome ownLookup st l = freshOutcome l := rfl
+
+/-- … for whole histories: every load of a history is answered as if it were the only one -/
+theorem history_independent_all : ∀ (st : Proc) (h : List Load),
+    runHistory ownLookup st h = h.map freshOutcome
+  | _, [] => rfl
+  | st, l :: rest => by
+    simp only [runHistory, List.map_cons, history_independent]
+    rw [history_independent_all _ rest]
+
+/-- names: 1 = "n.test" -/
+def histP : Params :=
+  { q := fun d => d == 1, pub := fun d => d == 1, ip := fun _ => false, internal := fun _ => false,
+    loaded := fun _ => false, ts := fun _ => false, mw := fun a b => a == b, hm := fun a b => a == b }
+
+/-- config A hand-loads a certificate for name 1 and serves nothing; config B names it on :443 -/
+def histA : Load := ⟨⟨0, 0, [], [], none⟩, histP, Orders.id, [1]⟩
+def histB : Load := ⟨⟨0, 0, [⟨[exTcp 443], false, false, false, false, 0, [], [], [⟨[[1]]⟩]⟩], [], none⟩, histP, Orders.id, []⟩
+
+def outcomeCerts : Outcome → List Name
+  | .ok r => r.certs
+  | _ => []
+
+/-- **a process-wide "some live config loaded it" lookup breaks history independence** (the seeded
+    change `C11-loaded-cert-count-shared-across-configs`): after A, config B no longer manages
+    name 1 although B loads no certificate for it; in a fresh process it does -/
+theorem shared_lookup_breaks_history_independence :
+    ∃ (h : List Load) (l : Load), (runHistory sharedLookup ⟨[]⟩ (h ++ [l])).getLast? ≠ some (freshOutcome l) ∧
+      outcomeCerts (freshOutcome l) = [1] ∧
+      ((runHistory sharedLookup ⟨[]⟩ (h ++ [l])).getLast?.map outcomeCerts) = some [] := by
+  refine ⟨[histA], histB, ?_, by decide, by decide⟩
+  intro h
+  have : ((runHistory sharedLookup ⟨[]⟩ ([histA] ++ [histB])).getLast?.map outcomeCerts) = some [] := by decide
+  rw [h] at this
+  revert this
+  decide
+
+example : runHistory ownLookup ⟨[]⟩ [histA, histB, histB] = [freshOutcome histA, freshOutcome histB, freshOutcome histB] :=
+  history_independent_all _ _
 
 /-- the map-typed variables of `automaticHTTPSPhase1` (autohttps.go) -/
 def phase1Maps : List String :=
